@@ -20,9 +20,58 @@ PROP_EXPLANATION["C19"] = (
 PP = "PreprocessorHexagon"
 
 
-def find_re_call(fn, names=("match", "search", "fullmatch")):
-    calls = [n for n in ast.walk(fn) if isinstance(n, ast.Call) and isinstance(n.func, ast.Attribute) and U(n.func.value) == "re" and n.func.attr in names]
+def find_re_call(fn, names=("match", "search", "fullmatch"), idx=None, cls=None):
+    """regex applications in `fn`, normalised to the module-level form re.<method>(pattern, subject, flags...):
+    a pre-compiled pattern (local, module-level or class-level `re.compile(...)`) applied with <pattern>.<method>(subject)
+    is rewritten to that form, so the rules see the same call whichever spelling the code uses."""
+    compiled = {}  # expression text -> re.compile(...) call
+    for n in ast.walk(fn):
+        if isinstance(n, ast.Assign) and isinstance(n.value, ast.Call) and U(n.value.func) == "re.compile":
+            for t in n.targets:
+                compiled[U(t)] = n.value
+    if idx is not None:
+        mod = next((m for m, t in idx.modules.items() if any(f is fn for f in ast.walk(t))), None)
+        for m, binds in idx.module_bindings.items():
+            if mod is None or m == mod:
+                for name, v in binds.items():
+                    if isinstance(v, ast.Call) and U(v.func) == "re.compile":
+                        compiled.setdefault(name, v)
+        if cls is not None and cls in idx.classes:
+            for c in idx.mro(cls):
+                if c not in idx.classes:
+                    continue
+                for a, v in idx.classes[c].class_attrs.items():
+                    if isinstance(v, ast.Call) and U(v.func) == "re.compile":
+                        for recv in ("self", "cls", c, cls):
+                            compiled.setdefault(f"{recv}.{a}", v)
+    calls = []
+    for n in ast.walk(fn):
+        if not (isinstance(n, ast.Call) and isinstance(n.func, ast.Attribute) and n.func.attr in names):
+            continue
+        if U(n.func.value) == "re":
+            calls.append(n)
+        elif U(n.func.value) in compiled:
+            comp = compiled[U(n.func.value)]
+            new = ast.Call(func=ast.Attribute(value=ast.Name(id="re", ctx=ast.Load()), attr=n.func.attr, ctx=ast.Load()),
+                           args=list(comp.args[:1]) + list(n.args[:1]) + list(comp.args[1:]) + list(n.args[1:]), keywords=list(comp.keywords))
+            ast.copy_location(new, n)
+            ast.fix_missing_locations(new)
+            new._orig = n
+            calls.append(new)
+    calls.sort(key=lambda c: (getattr(c, "lineno", 0), getattr(c, "col_offset", 0)))
     return calls
+
+
+def failed_match(g, pol, is_match_value):
+    """is the guard (g, pol) the statement `the regex found nothing`?  spellings: `not m`, `m is None`, `m == None`, `not (m is not None)`"""
+    if is_match_value(g):
+        return not pol
+    if isinstance(g, ast.Compare) and len(g.ops) == 1 and isinstance(g.comparators[0], ast.Constant) and g.comparators[0].value is None and is_match_value(g.left):
+        if isinstance(g.ops[0], (ast.Is, ast.Eq)):
+            return bool(pol)
+        if isinstance(g.ops[0], (ast.IsNot, ast.NotEq)):
+            return not pol
+    return False
 
 
 def pattern_text(node):
@@ -67,7 +116,7 @@ def literal_parts(expr):
 def r19_1(ctx):
     idx = get_index(ctx.env)
     fi = idx.func(f"{PP}.split_resolved_shortcode")
-    calls = find_re_call(fi.node)
+    calls = find_re_call(fi.node, idx=idx, cls=PP)
     ctx.need(len(calls) == 1, f"split_resolved_shortcode: expected one re.match/search call, found {len(calls)}")
     c = calls[0]
     pat = pattern_text(c.args[0])
@@ -106,15 +155,21 @@ def r19_1(ctx):
               and all(isinstance(e, ast.Call) and call_tail(e) == "group" for e in rets[0].value.elts),
               "(match.group(1), match.group(2))", str([U(p.value)[:80] for p in rets]), w)
     raising = [p for p in ps if p.outcome == "raise"]
-    ctx.check("a line that does not match is rejected with an exception", any("not" in p.guard_text() and "re." in p.guard_text() for p in raising) and all(any(not pol for _, pol in p.guards) or True for p in raising) and bool(raising),
-              "raise when the match fails", f"{len(raising)} raising paths", w)
+    orig = getattr(c, "_orig", c)
+    mvars = {t.id for n in ast.walk(fi.node) if isinstance(n, ast.Assign) and n.value is orig for t in n.targets if isinstance(t, ast.Name)}
+    def is_match_value(g):  # the path walker propagates bindings: the guard is the variable or the call it is bound to
+        return (isinstance(g, ast.Name) and g.id in mvars) or g is orig or U(g) == U(orig)
+    failing = [p for p in raising if any(failed_match(g, pol, is_match_value) for g, pol in p.guards)]
+    bad_rets = [p for p in rets if any(failed_match(g, pol, is_match_value) for g, pol in p.guards)]
+    ctx.check("a line that does not match is rejected with an exception", bool(failing) and not bad_rets,
+              "raise on the path where the match object is None", f"{len(failing)} raising paths under a failed match, {len(bad_rets)} returning ones", w)
 
 
 @rule("R19.2", "C19", "split_compounds: anchored, all three text segments captured, each used exactly once and in order in the returned parts, only braces added", min_instances=7)
 def r19_2(ctx):
     idx = get_index(ctx.env)
     fi = idx.func(f"{PP}.split_compounds")
-    calls = find_re_call(fi.node)
+    calls = find_re_call(fi.node, idx=idx, cls=PP)
     ctx.need(len(calls) == 1, f"split_compounds: expected one re.match call, found {len(calls)}")
     c = calls[0]
     pat = pattern_text(c.args[0])
@@ -192,6 +247,11 @@ def r19_3(ctx):
             compound = bool(has_marker)
             if compound:
                 ok = isinstance(val, ast.List) and len(val.elts) == 2 and all("split_compounds" in U(e) for e in val.elts) and U(val.elts[0]).endswith("[0]") and U(val.elts[1]).endswith("[1]")
+                # an order-preserving copy of the returned pair is the same thing: list(pair) / [*pair]
+                if isinstance(val, ast.Call) and U(val.func) == "list" and len(val.args) == 1 and isinstance(val.args[0], ast.Call) and call_tail(val.args[0]) == "split_compounds":
+                    ok = True
+                if isinstance(val, ast.List) and len(val.elts) == 1 and isinstance(val.elts[0], ast.Starred) and isinstance(val.elts[0].value, ast.Call) and call_tail(val.elts[0].value) == "split_compounds":
+                    ok = True
                 ctx.check("compound: both parts stored in order", ok, "[part1, part2] from split_compounds(body)", U(val)[:100], w)
             else:
                 ok = isinstance(val, ast.List) and len(val.elts) == 1 and "split_resolved_shortcode" in U(val.elts[0]) and U(val.elts[0]).endswith("[1]")
